@@ -31,10 +31,10 @@ FULL STATEMENT (DESIGN §4 C15) and what is proved here:
          sub-grammar)                                                          — PROVED: the reader
          returns the normal form `normSel` (dots nested to the left, nothing else changed), which is the
          search itself for every search in normal form; the reading is in normal form and prints as the
-         same tokens.  That `normSel s` FINDS what `s` finds (`<a>.(<b>.<c>)` vs `(<a>.<b>).<c>`: `.` and
-         `..` are associative) is NOT proved: differential (real `find` on real trees).  The printer
-         before 9a10ad80 dropped the parentheses of a group's base, which does change what is found
-         (`C15_search_parens_matter`, F66 fixed)
+         same tokens; and it FINDS what `s` finds (same containers, trees, order; raises exactly when
+         `s` raises) on the shared model of `find` (`Model/Search.lean`, tied to /repo by C07):
+         `C15_search_roundtrip_same_find`.  The printer before 9a10ad80 dropped the parentheses of a
+         group's base, which does change what is found (`C15_search_parens_matter`, F66 fixed)
   NOT proved (differential only, every run): the boolean / comparison / quantifier layer of constraints
   ABOVE the selectors (`Constraint.format_as_spec`: open findings F18 legacy quantifier, F21 `not` over a
   comparison, F22 parenthesised boolean group re-read as one expression — root causes in the front-end
@@ -60,7 +60,7 @@ theorem C15_generated_printer_is_sound : Generated.printCfg.Sound := by decide
 /-- **Reading the printed form back** succeeds and yields `norm n`: the same node up to node ids,
     collapsed singleton alternatives / concatenations (what `visitAlternative` /
     `visitConcatenation` do), a sequence printed bare inside a sequence being spliced into it, and the
-    paren-free reading of the selectors inside computed bounds.
+    normal form (dots nested to the left) of the selectors inside computed bounds.
     For every expressible node (`wf`: non-empty alternatives and sequences, bounds the
     `Repetition` constructor accepts, computed bounds with at least one expression bound), every
     repetition cap. -/
@@ -108,7 +108,7 @@ example : print Generated.printCfg exNode =
 theorem C15_print_stable (cap : Nat) (n : ENode) (h : wf cap n = true) (hs : shaped n = true) :
     ∃ n', read cap (print Generated.printCfg n) = some n' ∧
       print Generated.printCfg n' = print Generated.printCfg n :=
-  ⟨norm n, C15_read_print cap n h, print_norm _ n hs⟩
+  ⟨norm n, C15_read_print cap n h, print_norm _ (by decide) n hs⟩
 
 example : shaped exNode = true := by decide
 
@@ -137,7 +137,7 @@ theorem C15_repetition_survives (cap : Nat) (id : String) (k : RepKind) (n : ENo
   C15_read_print cap _ h
 
 /-- **computed bounds survive**: `<a>{int(<n>)}`, `<a>{1,int(<n>)}`, `<a>{int(<n>),}` are read back
-    with the same bound expressions (Python text verbatim, selectors in their paren-free reading),
+    with the same bound expressions (Python text verbatim, selectors in their normal form),
     hence with the same static `min` / `max` -/
 theorem C15_computed_bounds_survive (cap : Nat) (id : String) (n : ENode) (b : CB)
     (h : wf cap (.crep id n b) = true) :
@@ -381,6 +381,17 @@ theorem C15_search_norm_stable (s : PS.Sel) :
 theorem C15_selector_print_read (t : PS.Top) (h : PS.wfTop t = true) :
     PS.readTop (PS.printTop true t) = some (PS.normTop t) :=
   PS.readTop_printTop t h
+
+/-- **the search read back FINDS what the original finds**: for every tree, scope and mode (`find` /
+    `find_direct`) the same containers with the same trees in the same order, and it raises exactly when
+    the original raises (`PS.sem`: the result of the shared model of `find`, `Model/Search.lean`, with the
+    identity of the exception forgotten — after `<a>.(<b>.<c>)` has become `(<a>.<b>).<c>` another base
+    tree's exception may be met first). -/
+theorem C15_search_roundtrip_same_find (t : PS.Top) (h : PS.wfTop t = true) :
+    ∃ t', PS.readTop (PS.printTop true t) = some t' ∧
+      ∀ (direct : Bool) (tree : Tree) (σ : Scope),
+        PS.sem direct (PS.topSearch t') tree σ = PS.sem direct (PS.topSearch t) tree σ :=
+  ⟨PS.normTop t, PS.readTop_printTop t h, fun d tr σ => PS.sem_normTop t d tr σ⟩
 
 /-- slices with omitted bounds keep their places: `[:2]` is not `[2:]`, `[::2]` keeps its step
     (`decide`: finite witnesses) -/
